@@ -58,6 +58,7 @@ def jobs(tier, seed):
 def run_job(job):
     from mdpax.utils.spaces import create_range_space
     ob = Obligations(job)
+    done = []   # boxes constructed earlier in this process (the constructor is called many times per process by its users)
     for box in job["boxes"]:
         mins = [p[0] for p in box]
         maxs = [p[1] for p in box]
@@ -68,9 +69,15 @@ def run_job(job):
         tag = f"{mins}->{maxs}"
         space, index_fn = create_range_space(np.array(mins), np.array(maxs))
         expect = np.array(list(itertools.product(*[range(a, b + 1) for a, b in box])), dtype=np.int64).reshape(n, dim)
+        hist = [list(b) for b in done]
         ob.prove(f"space-row-major[{tag}]", [], np.asarray(space).shape == (n, dim) and
                  np.array_equal(np.asarray(space), expect), kind="space listing",
-                 cex=lambda m: dict(mins=mins, maxs=maxs, vector=None))
+                 cex=lambda m: dict(mins=mins, maxs=maxs, vector=None, history=hist))
+        # a second construction of the same box (and every later one) lists the same space
+        space2, _ = create_range_space(np.array(mins), np.array(maxs))
+        ob.prove(f"space-row-major-again[{tag}]", [], np.asarray(space2).shape == (n, dim) and np.array_equal(np.asarray(space2), expect),
+                 kind="space listing (repeated construction)", cex=lambda m: dict(mins=mins, maxs=maxs, vector=None, history=hist + [[mins, maxs]]))
+        done.append([mins, maxs])
         ex = pathx.Explorer()
 
         def run():
@@ -93,7 +100,7 @@ def run_job(job):
             nrank = sum((near[k] - mins[k]) * strides[k] for k in range(dim))
 
             def cexf(m):
-                return dict(mins=mins, maxs=maxs, vector=[zx.model_value(m, x) for x in v])
+                return dict(mins=mins, maxs=maxs, vector=[zx.model_value(m, x) for x in v], history=hist)
             ob.prove(f"in-box-rank[{tag}]", o.pc + [inbox], zx.Z(idx) == rank, kind="in-box vector -> own row", cex=cexf)
             ob.prove(f"valid-row[{tag}]", o.pc, z3.And(zx.Z(idx) >= 0, zx.Z(idx) < n), kind="any vector -> valid row", cex=cexf)
             ob.prove(f"nearest[{tag}]", o.pc, zx.Z(idx) == nrank, kind="any vector -> nearest box point", cex=cexf)
@@ -111,6 +118,15 @@ def replay(data):
     from mdpax.utils.spaces import create_range_space
     c = data["cex"]
     mins, maxs = c["mins"], c["maxs"]
+    if c.get("history") and not data.get("_with_history"):
+        # first as a single call in a fresh process; if that does not reproduce, after the constructions that preceded it
+        ok, msg = replay(dict(data, cex=dict(c, history=None)))
+        if ok:
+            return ok, msg
+        for (mi, ma) in c["history"]:
+            create_range_space(np.array(mi), np.array(ma))
+        ok, msg = replay(dict(data, cex=dict(c, history=None), _with_history=True))
+        return ok, msg + f" [after {len(c['history'])} earlier constructions in the same process]"
     space, index_fn = create_range_space(np.array(mins), np.array(maxs))
     sizes = [b - a + 1 for a, b in zip(mins, maxs)]
     expect = np.array(list(itertools.product(*[range(a, b + 1) for a, b in zip(mins, maxs)])), dtype=np.int64)
